@@ -47,3 +47,7 @@ claim("C08", "static: region analysis of frame mutations (edge-cut), who-may-wri
       "Decides that without a dialect nothing modifies a parsed or written frame, that header fields are only written by parsers/originators, that wherever a frame's message is re-encoded or its payload trimmed the checksum is regenerated before the frame is marshalled / queued / returned, and FixFrame's encode→checksum→signature order. Byte identity and next-hop decode equality are not observed.",
       "Trusts SSA; 'stale on return' summaries are context-insensitive (conservative).",
       "DESIGN.md §5 C08")
+claim("C04", "static: alias-derivation (may-share-backing-array) taint of the caller's payload with write-effect summaries of callees, dominance of the length gates, shape of truncation helpers, control dependence of extension skipping (go/ssa)",
+      "Decides that no value aliasing the caller's payload is ever appended to / copied into / stored through (also inside readValue), that v1 exact-length and v2 zero-extension gates precede decoding, that truncation is applied exactly for v2 with a one-byte floor, that fields are skipped iff !isV2 && extension symmetrically in Read and Write, and the bounded string scan/copy. Value-level round trips and panic-freedom over all payloads are not decided.",
+      "Trusts reflect and encoding/binary; append's in-place behaviour per the Go spec.",
+      "DESIGN.md §5 C04")
